@@ -37,6 +37,7 @@ type CallsiteClause struct {
 type FuncContract struct {
 	Key       string
 	Mode      string // "int" (default) or "bv"
+	ModeSet   bool   // an explicit mode line was given
 	Requires  []*Clause
 	Ensures   []*Clause
 	RetAsserts []*Clause // like ensures, but names denote the current values of locals at the return
@@ -50,6 +51,7 @@ type FuncContract struct {
 	Pure      bool
 	Trusted   bool   // body not verified (assumed contract on repository code)
 	Assumed   bool   // came from /verif/contracts/assumed (dependency)
+	NoPanic   bool   // no explicit panic statement of the function is reachable
 	Borrows   bool   // pointer arguments are not retained by the callee
 	NoFrame   bool   // do not generate frame obligation
 	Variant   string // distinguishes several contract blocks for one function (e.g. "bv")
@@ -121,6 +123,7 @@ type Contracts struct {
 	Lemmas  []*Lemma
 	Axioms  []*Axiom
 	EffectClasses map[string][]string
+	IfaceEquivs [][2]string
 	Files   []string
 }
 
@@ -297,6 +300,13 @@ func (cs *Contracts) parseLines(file string, lines []srcLine, assumed bool) erro
 			}
 			cs.SpecFns[sf.Name] = sf
 			curF, curS = nil, nil
+		case "ifaceequiv":
+			fs := strings.Fields(rest)
+			if len(fs) != 2 {
+				return errf(ln, "ifaceequiv T1 T2")
+			}
+			cs.IfaceEquivs = append(cs.IfaceEquivs, [2]string{fs[0], fs[1]})
+			curF, curS = nil, nil
 		case "effectclass":
 			k := strings.Index(rest, "=")
 			if k < 0 {
@@ -470,6 +480,7 @@ func parseFuncClause(f *FuncContract, file string, ln int, kw, rest string) erro
 	switch kw {
 	case "mode":
 		f.Mode = rest
+		f.ModeSet = true
 	case "pure":
 		f.Pure = true
 	case "trusted":
@@ -478,6 +489,8 @@ func parseFuncClause(f *FuncContract, file string, ln int, kw, rest string) erro
 		f.NoFrame = true
 	case "borrows":
 		f.Borrows = true
+	case "nopanic":
+		f.NoPanic = true
 	case "requires", "ensures", "retassert":
 		c, err := mkClause(file, ln, rest)
 		if err != nil {
